@@ -4,7 +4,7 @@
    arbitrarily nested: flags, arguments, positionals, `any`, subcommands (adjacent or not), construct!,
    alternatives, optional/many/some/collect/count/last, fallback, guard, parse, map, hide, usage,
    group_help, pure, fail, boxed, and ADJACENT GROUPS whose members keep their scope (everything but subcommands
-   and nested groups inside the group) and which start with an item -- every
+   inside the group; groups nested in groups are covered) and which start with an item -- every
    vector and every environment, a run ends in a value, a help/version document or an error message: no
    panic outcome, no fuel exhaustion (C04_total); the retry loop of ParseAdjacent::eval terminates and its
    panic sites (scope arithmetic, `before - remaining`) are unreachable (C04_adjacent_group_total);
@@ -12,7 +12,7 @@
    C04_console_rendering_returns).
    Error rendering returns for EVERY definition (C04_error_rendering_returns: the evaluator reports only
    messages whose positions are items of the line; Message::render then has a document).
-   Not theorems: (a) adjacent groups with subcommands or nested groups as members, or
+   Not theorems: (a) adjacent groups with subcommands as members, or
    without a first item (that one panics: known finding) -- their FUEL/panic outcomes are explicit in the
    model and compared with the implementation, (b) the panic sites of completion
    (compared per run), (c) purity -- Gallina functions are pure by construction; the implementation is
@@ -20,7 +20,7 @@
 From Coq Require Import List Arith.
 From BpafModel Require Import Conv Wf Docs Console Message.
 From Coq Require Import String.
-From BpafLemmas Require Import Tac EvalEq Reach LoopLaws TotalLaws AdjLaws AdjTotal TotalAll AbsSim AbsTotal ConvRefine ConvTotal HtmlLaws BalLaws ConsoleLaws MessageLaws MsgOk.
+From BpafLemmas Require Import Tac EvalEq Reach LoopLaws TotalLaws AdjLaws AdjTotal TotalAll AbsSim AbsTotal ConvRefine ConvTotal HtmlLaws BalLaws ConsoleLaws MessageLaws MsgOk DamerauSafe.
 Import ListNotations.
 
 (* `remaining <= number of items` (and the item-state vector has the length of the item list)
@@ -179,6 +179,14 @@ Theorem C04_level_error_rendering_returns :
 Proof. exact run_sub_has_document. Qed.
 Print Assumptions C04_level_error_rendering_returns.
 
+(* ... and the one place where the transcription uses total accessors for `d[ix(i, j)]` -- the edit distance behind the
+   `did you mean` suggestions -- never leaves its (a_len + 1) * (b_len + 1) matrix: written with checked accessors
+   (None = the index panic) it returns, and gives what the transcription gives, for all strings *)
+Theorem C04_suggestion_distance_in_bounds :
+  forall a b, damerau_checked a b = Some (damerau_levenshtein a b).
+Proof. exact damerau_in_bounds. Qed.
+Print Assumptions C04_suggestion_distance_in_bounds.
+
 (* non-vacuity: `-a -b` with exclusive alternatives: the conflict message is rendered *)
 Example C04_example_error_rendered :
   let p := POr (PFlag (mkNamed [97%N] [] [] None) VUnit None) (PFlag (mkNamed [98%N] [] [] None) VUnit None) in
@@ -196,6 +204,16 @@ Example C04_example_oko :
                                   (PCmd [99%N] [] [] None false
                                         (Options (PGuard (PPos [80%N] TyString Unrestricted None) (fun _ => true) []) default_info)))
                              PNil))) default_info) = true.
+Proof. vm_compute. reflexivity. Qed.
+
+(* ... and a group nested in a group: `--rect --w W [--origin X Y]` *)
+Example C04_example_oko_nested_group :
+  oko (Options (PCon (PCons (PAdj (PCons (PFlag (mkNamed [] [[114]%N] [] None) VUnit None)
+                                  (PCons (PArg (mkNamed [] [[119]%N] [] None) [87%N] TyU32 false)
+                                  (PCons (POptional (PAdj (PCons (PFlag (mkNamed [] [[111]%N] [] None) VUnit None)
+                                                          (PCons (PPos [88%N] TyU32 Unrestricted None)
+                                                          (PCons (PPos [89%N] TyU32 Unrestricted None) PNil)))) false) PNil))))
+                      (PCons (PFlag (mkNamed [118%N] [] [] None) (VBool true) (Some (VBool false))) PNil))) default_info) = true.
 Proof. vm_compute. reflexivity. Qed.
 
 (* adjacent subcommands: the window handed to the subcommand and the one retry on a narrower window stay
